@@ -538,7 +538,7 @@ Proof.
     + cbn [r_cs r_reg r_cancel]. split; [exact O1|]. split; [intros y [<-|[]]; reflexivity|].
       unfold mu2 in *. unfold mu, drive_fuel in *. cbn [r_cs r_reg r_cancel]. rewrite C1 in M1. cbn [mem_conn existsb] in M1 |- *.
       rewrite Nat.eqb_refl. cbn [orb].
-      destruct P1 as [P1|[P1 _]]; [congruence|]. rewrite Hpc in P1.
+      destruct P1 as [P1|[P1 _]]; [discriminate|].
       pose proof (wpc_program_le buf s c o R) as W. unfold drive_fuel in W. rewrite Rg1, Hpc, P1. lia.
 Qed.
 
@@ -581,7 +581,7 @@ Proof.
       set (st0 := istep st (LOp c o)).
       assert (R0 : reachable buf (i_s st0)) by (unfold st0; rewrite istep_s; now constructor).
       assert (Hcc : forall y, In y (r_cancel (i_s st0)) -> y = c) by (unfold st0; rewrite istep_s, C0; intros y []).
-      destruct (drive_c_spec buf false _ st0 c R0 O0 Hcc M0) as (D1 & D2 & D3 & D4).
+      destruct (drive_c_spec buf false (drive_fuel (i_s st0)) st0 c R0 O0 Hcc M0) as (D1 & D2 & D3 & D4).
       destruct (drive_c (drive_fuel (i_s st0)) st0 c false) as [st1 tr1]. cbn [fst snd] in *.
       destruct (drain_all_spec (seq 0 N) st1 paused) as (E1 & E2 & E3 & _ & _).
       destruct (Readers _ E2) as (A1 & A2 & A3). destruct (Drives c _ D2 HcN) as (B1 & B2 & B3).
@@ -597,12 +597,14 @@ Proof.
       * rewrite irun_cons. fold st0. rewrite !irun_app, <- D1, <- E1. exact F1.
       * constructor; [exact HcN|]. apply Forall_app. split; [exact B1|]. apply Forall_app. split; assumption.
       * constructor; [exact Hwo|]. apply Forall_app. split; [exact B2|]. apply Forall_app. split; assumption.
-      * intro Hnc. inversion Hnc as [|? ? _ Hnc']; subst. cbn [solo_sched]. split; [intros _; exact Idle|].
+      * intro Hnc. pose proof (Forall_inv_tail Hnc) as Hnc'. cbn [solo_sched]. split; [intros _; exact Idle|].
         change (step (i_s st) (LOp c o)) with (i_s st0).
         apply solo_sched_app; [now apply solo_sched_noop|]. apply solo_sched_app; [now apply solo_sched_noop|].
         rewrite <- irun_s, <- D1, <- irun_s, <- E1. now apply F4.
-    + (* pause *) apply IH; assumption || (intro Hnc; inversion Hnc; subst; auto).
-      all: try assumption.
+    + (* pause *)
+      destruct (IH st (c :: paused) R Idle Hcan Hok') as (F1 & F2 & F3 & F4 & F5 & F6 & F7).
+      split; [|split; [|split; [|split; [|split; [|split]]]]]; try assumption.
+      intro Hnc. apply F4. exact (Forall_inv_tail Hnc).
     + (* resume *)
       destruct (drain_all_spec (seq 0 N) st (remove_conn c paused)) as (E1 & E2 & E3 & _ & _).
       destruct (Readers _ E2) as (A1 & A2 & A3). pose proof (ReadersCancel _ (i_s st) E2) as RC.
@@ -616,14 +618,14 @@ Proof.
       * rewrite irun_app, <- E1. exact F1.
       * apply Forall_app. split; assumption.
       * apply Forall_app. split; assumption.
-      * intro Hnc. inversion Hnc as [|? ? _ Hnc']; subst.
+      * intro Hnc. pose proof (Forall_inv_tail Hnc) as Hnc'.
         apply solo_sched_app; [now apply solo_sched_noop|]. rewrite <- irun_s, <- E1. now apply F4.
     + (* an operation cut short by a disconnect *)
       destruct Hit as [HcN Hwo].
       destruct (after_cut buf _ c o R Idle Hcan) as (O0 & Hcc & M0).
       set (st0 := istep (istep st (LOp c o)) (LOp c ODisc)).
       assert (R0 : reachable buf (i_s st0)) by (unfold st0; rewrite !istep_s; constructor; now constructor).
-      destruct (drive_c_spec buf giveup _ st0 c R0 O0 Hcc M0) as (D1 & D2 & D3 & D4).
+      destruct (drive_c_spec buf giveup (drive_fuel (i_s st0)) st0 c R0 O0 Hcc M0) as (D1 & D2 & D3 & D4).
       destruct (drive_c (drive_fuel (i_s st0)) st0 c giveup) as [st1 tr1]. cbn [fst snd] in *.
       destruct (drain_all_spec (seq 0 N) st1 paused) as (E1 & E2 & E3 & _ & _).
       destruct (Readers _ E2) as (A1 & A2 & A3). destruct (Drives c _ D2 HcN) as (B1 & B2 & B3).
@@ -639,7 +641,7 @@ Proof.
       * rewrite !irun_cons. fold st0. rewrite !irun_app, <- D1, <- E1. exact F1.
       * constructor; [exact HcN|]. constructor; [exact HcN|]. apply Forall_app. split; [exact B1|]. apply Forall_app. split; assumption.
       * constructor; [exact Hwo|]. constructor; [exact Logic.I|]. apply Forall_app. split; [exact B2|]. apply Forall_app. split; assumption.
-      * intro Hnc. inversion Hnc as [|? ? X _]; subst. contradiction.
+      * intro Hnc. pose proof (Forall_inv Hnc) as X. contradiction.
 Qed.
 
 (** a connection that never issued an operation has nothing queued *)
